@@ -50,6 +50,16 @@ Theorem C11_model_is_source_merge_min_smooth_plates : forall min_size rows ds fu
 Proof. exact src_merge_min_is_model. Qed.
 Print Assumptions C11_model_is_source_merge_min_smooth_plates.
 
+(* create_plate_balanced_holdout_set_among_masked_plates (retrospective.py): the range check and its raise, the
+   all-false selection vector, the loop over the plates, `if plate.is_observed: continue`, the count
+   math.ceil(plate.size * fraction), the rng.choice of that many of the plate's indices, the update
+   selection_vector[indices] = True, the two Screen(...) calls (rows not selected; rows selected, marked observed),
+   the returned pair - equal to the model for every fraction num/den, count mode, screen and answer stream *)
+Theorem C11_model_is_source_create_plate_balanced_holdout_set_among_masked_plates : forall num den counts rows ds,
+  src_balanced_holdout num den counts rows ds = holdout_balanced num den counts rows ds.
+Proof. exact src_balanced_holdout_is_model. Qed.
+Print Assumptions C11_model_is_source_create_plate_balanced_holdout_set_among_masked_plates.
+
 (* every shipped generator (PlatePermutation, SampleSegregating in both variants, Pairwise), every
    oracle answer: the output is new ++ (observed input rows, unchanged, still observed), the new rows
    are all unobserved and, minus plate labels, a permutation of the unobserved input rows *)
